@@ -17,7 +17,8 @@ Inductive io_err :=
 | EInvalidDimensions   (* tablib.InvalidDimensions *)
 | EIndex               (* IndexError (XLSXSheetReader._sanitize: every header is None) *)
 | EType                (* TypeError  (XLSXSheetReader._sanitize: sheet without header row) *)
-| EAttr.               (* AttributeError (table.dict = [dict, list, ...]) *)
+| EAttr                (* AttributeError (table.dict = [dict, list, ...]) *)
+| EFormat.             (* tablib.UnsupportedFormat (table.dict = {...}: not a list) *)
 
 (* list reversal in linear time ([List.rev] is quadratic when extracted); [frev_rev] in
    IoFacts.v: frev l = rev l *)
